@@ -525,3 +525,139 @@ Proof.
         -- intros (g0 & E0 & P0). inversion E0; subst g0. discriminate.
       * rewrite (Hnth2 j Hj). apply Va.
 Qed.
+
+(* ---- MTickAll ---- *)
+Definition tick_reg (lv : Z -> bool) (g : ereg) : ereg :=
+  match g_pc g with
+  | EActive => if lv (g_lease g) then g else eset (eset g ERevoking) EClosed
+  | _ => g
+  end.
+
+Definition tick_step (st : esys) (i : nat) : esys :=
+  try_step estep (try_step estep st (GTick i)) (GRevokeOwn i).
+
+Record kv_same (kv kv' : estore) : Prop := mkKvSame {
+  ks_kvs : e_kvs kv' = e_kvs kv;
+  ks_live : forall x, e_lease_live kv' x = e_lease_live kv x }.
+
+Lemma kv_same_refl : forall kv, kv_same kv kv.
+Proof. intros; split; auto. Qed.
+Lemma kv_same_trans : forall a b c, kv_same a b -> kv_same b c -> kv_same a c.
+Proof. intros a b c [A1 A2] [B1 B2]. split; [congruence|intros; rewrite B2; auto]. Qed.
+
+Lemma tick_one : forall s i,
+  (forall g, nth_error (es_rs s) i = Some g -> stable_pc (g_pc g)) ->
+  kv_same (es_kv s) (es_kv (tick_step s i)) /\
+  es_rs (tick_step s i) =
+    match nth_error (es_rs s) i with
+    | Some g => upd i (tick_reg (e_lease_live (es_kv s)) g) (es_rs s)
+    | None => es_rs s
+    end.
+Proof.
+  intros s i Hst. unfold tick_step.
+  destruct (nth_error (es_rs s) i) as [g|] eqn:Hg.
+  2:{ assert (H1 : try_step estep s (GTick i) = s) by (unfold try_step, estep; rewrite Hg; reflexivity).
+      assert (H2 : try_step estep s (GRevokeOwn i) = s) by (unfold try_step, estep; rewrite Hg; reflexivity).
+      rewrite H1, H2. split; [apply kv_same_refl|reflexivity]. }
+  assert (Hlen : (i < length (es_rs s))%nat) by (apply nth_error_Some; congruence).
+  destruct (Hst g eq_refl) as [Hp|[Hp|[Hp|[e Hp]]]].
+  1,3,4: assert (H1 : try_step estep s (GTick i) = s) by (unfold try_step, estep; rewrite Hg, Hp; reflexivity);
+         assert (H2 : try_step estep s (GRevokeOwn i) = s) by (unfold try_step, estep; rewrite Hg, Hp; reflexivity);
+         rewrite H1, H2; split; [apply kv_same_refl|]; unfold tick_reg; rewrite Hp;
+         symmetry; apply upd_same_id; auto.
+  (* active *)
+  destruct (e_keepalive (es_kv s) (g_lease g)) as [alive kv1] eqn:Hka.
+  pose proof (keepalive_shape _ _ _ _ Hka) as (Hk & _ & _ & Hl & Hb).
+  unfold tick_reg. rewrite Hp, <- Hb.
+  destruct alive.
+  - assert (H1 : try_step estep s (GTick i) = mkES kv1 (es_rs s)).
+    { unfold try_step, estep. rewrite Hg, Hp, Hka. unfold ewith. rewrite upd_same_id; auto. }
+    assert (H2 : try_step estep (mkES kv1 (es_rs s)) (GRevokeOwn i) = mkES kv1 (es_rs s)).
+    { unfold try_step, estep. cbn [es_rs]. rewrite Hg, Hp. reflexivity. }
+    rewrite H1, H2. cbn [es_kv es_rs]. split.
+    + split; auto. intros x. apply live_ids_eq; auto.
+    + symmetry. apply upd_same_id; auto.
+  - assert (H1 : try_step estep s (GTick i) = mkES (es_kv s) (upd i (eset g ERevoking) (es_rs s))).
+    { unfold try_step, estep. rewrite Hg, Hp, Hka. reflexivity. }
+    rewrite H1. unfold try_step, estep. cbn [es_rs es_kv]. rewrite nth_error_upd_same by auto. cbn [g_pc eset g_lease].
+    unfold ewith. cbn [es_rs es_kv]. rewrite upd_upd.
+    assert (Hrev : snd (e_revoke (es_kv s) (g_lease g)) = es_kv s).
+    { unfold e_revoke. rewrite <- Hb. reflexivity. }
+    rewrite Hrev. split; [apply kv_same_refl|reflexivity].
+Qed.
+
+Lemma tick_reg_stable : forall lv g, stable_pc (g_pc g) -> stable_pc (g_pc (tick_reg lv g)).
+Proof.
+  intros lv g H. unfold tick_reg. destruct (g_pc g) eqn:E; try (rewrite E; exact H).
+  destruct (lv (g_lease g)); [rewrite E; exact H|]. right; right; left; reflexivity.
+Qed.
+
+Lemma tick_reg_idem : forall lv g, tick_reg lv (tick_reg lv g) = tick_reg lv g.
+Proof.
+  intros lv g. remember (tick_reg lv g) as h eqn:Hh. unfold tick_reg in Hh.
+  destruct (g_pc g) eqn:E; subst h; try (unfold tick_reg; rewrite E; reflexivity).
+  destruct (lv (g_lease g)) eqn:L.
+  - unfold tick_reg. rewrite E, L. reflexivity.
+  - reflexivity.
+Qed.
+
+Lemma tick_reg_lease : forall lv g, g_lease (tick_reg lv g) = g_lease g.
+Proof. intros lv g. unfold tick_reg. destruct (g_pc g); auto. destruct (lv (g_lease g)); auto. Qed.
+
+(* the loop over all registrants *)
+Lemma tick_fold : forall l s,
+  (forall g, In g (es_rs s) -> stable_pc (g_pc g)) ->
+  let s' := fold_left tick_step l s in
+  kv_same (es_kv s) (es_kv s') /\
+  (forall g, In g (es_rs s') -> stable_pc (g_pc g)) /\
+  (forall j, nth_error (es_rs s') j =
+     match nth_error (es_rs s) j with
+     | Some g => Some (if existsb (Nat.eqb j) l then tick_reg (e_lease_live (es_kv s)) g else g)
+     | None => None
+     end).
+Proof.
+  induction l as [|i t IH]; intros s Hst; simpl.
+  - split; [apply kv_same_refl|]. split; auto. intros j. destruct (nth_error (es_rs s) j); auto.
+  - destruct (tick_one s i) as [Hkv Hrs]; [intros g Hg; apply Hst; eapply nth_error_In; eauto|].
+    set (s1 := tick_step s i) in *.
+    assert (Hst1 : forall g, In g (es_rs s1) -> stable_pc (g_pc g)).
+    { intros g Hg. rewrite Hrs in Hg. destruct (nth_error (es_rs s) i) as [gi|] eqn:Hi; auto.
+      apply In_upd in Hg. destruct Hg as [->|Hg]; auto. apply tick_reg_stable. apply Hst. eapply nth_error_In; eauto. }
+    destruct (IH s1 Hst1) as (Hkv' & Hst' & Hnth').
+    split; [eapply kv_same_trans; eauto|]. split; auto.
+    intros j. rewrite Hnth'.
+    assert (Hlv : forall g, tick_reg (e_lease_live (es_kv s1)) g = tick_reg (e_lease_live (es_kv s)) g).
+    { intros g. unfold tick_reg. destruct (g_pc g); auto. rewrite (ks_live _ _ Hkv). reflexivity. }
+    rewrite Hrs. destruct (nth_error (es_rs s) i) as [gi|] eqn:Hi.
+    + destruct (Nat.eq_dec j i) as [->|Hj].
+      * rewrite nth_error_upd_same by (apply nth_error_Some; congruence). rewrite Hi, Nat.eqb_refl. cbn [orb].
+        destruct (existsb (Nat.eqb i) t); rewrite ?Hlv, ?tick_reg_idem; reflexivity.
+      * rewrite nth_error_upd_other by auto.
+        assert (Nat.eqb j i = false) as -> by (apply Nat.eqb_neq; auto). cbn [orb].
+        destruct (nth_error (es_rs s) j); auto. rewrite Hlv. reflexivity.
+    + destruct (nth_error (es_rs s) j) as [gj|] eqn:Hjn; auto.
+      assert (Nat.eqb j i = false) as -> by (apply Nat.eqb_neq; intro; subst; congruence). cbn [orb].
+      rewrite Hlv. reflexivity.
+Qed.
+
+Lemma existsb_seq : forall j n, (j < n)%nat -> existsb (Nat.eqb j) (seq 0 n) = true.
+Proof.
+  intros j n H. apply existsb_exists. exists j. split; [apply in_seq; lia|apply Nat.eqb_refl].
+Qed.
+
+Lemma tick_all_shape : forall s,
+  (forall g, In g (es_rs s) -> stable_pc (g_pc g)) ->
+  let s' := fst (e_mop s MTickAll) in
+  kv_same (es_kv s) (es_kv s') /\
+  (forall g, In g (es_rs s') -> stable_pc (g_pc g)) /\
+  (forall j, nth_error (es_rs s') j = option_map (tick_reg (e_lease_live (es_kv s))) (nth_error (es_rs s) j)).
+Proof.
+  intros s Hst. cbn [e_mop fst].
+  change (fold_left (fun st i => try_step estep (try_step estep st (GTick i)) (GRevokeOwn i))
+                    (seq 0 (length (es_rs s))) s)
+    with (fold_left tick_step (seq 0 (length (es_rs s))) s).
+  destruct (tick_fold (seq 0 (length (es_rs s))) s Hst) as (A & B & C).
+  split; auto. split; auto. intros j. rewrite C.
+  destruct (nth_error (es_rs s) j) as [g|] eqn:E; auto. simpl.
+  rewrite existsb_seq; auto. apply nth_error_Some. congruence.
+Qed.
